@@ -451,10 +451,16 @@ def rule_order(chk, prog):
     else:
         chk.violation("K11-order", "main:sort-before-pack", so, "the sort file is not applied between building the file list and packing it")
     # the packing loop walks the list the sorter produced
-    pf = [g for g in prog.functions() if g.name == "pack_files" and g.unit.src.startswith("bin/gensquashfs/")][0].build()
+    pf = prog.fn(pk.callee, m.unit)
+    if pf is None or isinstance(pf, ExternFn):
+        chk.broke("pack_files is not a function of gensquashfs")
+        return
+    pf.build()
     chk.analysed(pf)
-    walks = any(i.op == "load" and (field_of(i) or ("", ""))[1] == "next_by_type" for i in pf.insts()) and \
-        any(i.op == "load" and (field_of(i) or ("", ""))[1] == "files" for i in pf.insts())
+    # the walk may sit in a helper of pack_files (same tool)
+    cl, _e, _u = prog.reachable_from([pf], stop=lambda g: not g.unit.src.startswith("bin/gensquashfs/"))
+    walks = any(i.op == "load" and (field_of(i) or ("", ""))[1] == "next_by_type" for g in cl for i in g.build().insts()) and \
+        any(i.op == "load" and (field_of(i) or ("", ""))[1] == "files" for g in cl for i in g.insts())
     if walks:
         chk.ok("K11-order", "pack_files:list", pf, "files are packed in fs->files / next_by_type order")
     else:
